@@ -164,6 +164,14 @@ def run_case(seed, tier, rec, st):
         except Exception as e:
             rec.count("encoder_build_failed")
             return
+        if t is not None and rng.random() < 0.5:
+            # history: the schemas of the ANCESTORS were built first (a subclass is described by its own field table)
+            for A in common.ancestor_classes(fam, t):
+                try:
+                    build_json_schema(A, all_refs=rng.random() < 0.5)
+                    rec.count("history_ancestor_schema_built_first")
+                except Exception:
+                    pass
         variants = [(DRAFT_2020_12, False), (DRAFT_2020_12, True), (OPEN_API_3_1, True), (OPEN_API_3_1, False)]
         validators = []
         for dialect, all_refs in variants:
